@@ -44,9 +44,18 @@ CHECKS = [
         "z3's FloatingPoint theory = IEEE binary64 = python float; python max/min/ZeroDivisionError semantics as modelled (probed natively on every run); "
         "the evaluator's final NaN/inf -> None mapping and whole-expression composition are not yet under contract",
         "contract-based deductive verification in IEEE float mode (z3 FP theory)", "DESIGN.md 3 (C13)"),
+    chk("C16", "proof",
+        "Deductive proof of every synchronous handler of BatteryStatusTracker, BlockingStatus and ComponentPoolStatus: a stream's "
+        "flag is true exactly if the handled message is fresh and fully healthy; expiry handlers clear it; WORKING/UNCERTAIN "
+        "only with both flags; UNCERTAIN iff blocked; back-off doubles up to the maximum and resets; notifications only on "
+        "change; uncertain components only as fallback.",
+        "the select() dispatch loop (_run) and the pool tracker's async update loop are not under contract; library timers assumed "
+        "to fire max_data_age after the last reset; datetime.now() modelled as arbitrary non-decreasing instants; library enum "
+        "member lists declared in the sidecar and probed natively on every run",
+        "contract-based deductive verification of atomic handlers (z3), class-invariant style", "DESIGN.md 3 (C16)"),
 ]
 
 _PENDING = "check under construction in this session (contracts not yet written); will be claimed once its obligations discharge"
 NOT_APPLICABLE = [
     {"property_id": "C12", "reason": "formula generators are graph algorithms over networkx.DiGraph (recursive dfs, successor-set classification); no contract within reach of the VC generator expresses 'the generated formula balances for every valid graph' (DESIGN.md 4)"},
-] + [{"property_id": f"C{n:02d}", "reason": _PENDING} for n in (1, 2, 5, 6, 7, 8, 9, 10, 14, 15, 16, 17, 18, 19, 20)]
+] + [{"property_id": f"C{n:02d}", "reason": _PENDING} for n in (1, 2, 5, 6, 7, 8, 9, 10, 14, 15, 17, 18, 19, 20)]
